@@ -337,3 +337,27 @@ def run(ck):
     for field in ('peer_announce_history_', 'peer_announce_lockouts_', 'peer_announce_failure_history_'):
         ws = {f.q for f in P.fns if any(w and m == N + field for _i, m, w in field_accesses(f))}
         ck.ob('C21.own', 'C21.own/' + field, ws and ws <= allowed, '', '%s is written only by the throttle functions (found: %s)' % (field, sorted(x.split('::')[-1] for x in ws)))
+
+    # ---- the interval test compares the exact elapsed time; and a lockout is lifted by nothing but an accepted announce -----------------
+    from sa.flow import value_sources as _vs21
+    from sa.match import comparison as _cmp21
+    from sa.prog import short
+    ROUNDERS = ('std::chrono::round', 'std::chrono::floor', 'std::chrono::ceil', 'std::chrono::duration_cast', 'std::chrono::time_point_cast')
+    rounded = []
+    ncmp = 0
+    for i in ri.walk():
+        c_ = _cmp21(ri, i)
+        if not c_:
+            continue
+        for side in (c_[1], c_[2]):
+            srcs = _vs21(ri, side)
+            if any(ri.nodes[j].get('callee') == 'std::chrono::steady_clock::now' or ri.nodes[j].get('n') == 'now' for j in srcs):
+                ncmp += 1
+                if any((ri.nodes[j].get('callee') or '') in ROUNDERS for j in srcs):
+                    rounded.append(i)
+    ck.floor('C21.rate', 'time comparisons in register_incoming_announce', ncmp, 2)
+    ck.ob('C21.rate', 'C21.rate/exact-elapsed-time', not rounded, ri.loc(rounded[0]) if rounded else ri.loc(),
+          'the throttle compares the exact steady_clock difference with the configured interval / window (no rounding or truncation of the elapsed time)')
+    callers = sorted({short(f_.q) for f_ in P.fns for j in f_.walk() if f_.nodes[j].get('callee') == N + 'clear_announce_failures'})
+    ck.ob('C21.lock', 'C21.lock/cleared-only-by-accepted-announce', callers == ['Node::handle_announce'], '',
+          'clear_announce_failures is called from handle_announce only (a handshake or any other event must not lift a lockout early); callers: %s' % callers)
